@@ -8,6 +8,7 @@ checks=[]
 claimed=set()
 for path in sorted(glob.glob(f'{V}/checks/C*.json')):
     c=json.load(open(path))
+    if c.get('WIP'): continue
     pid=c['Property']; claimed.add(pid)
     checks.append({
       "property_id":pid,
